@@ -148,7 +148,7 @@ def import_tokens(x):
             x["cond_parts"].append((f, None, None))
             continue
         if kind == "layer":
-            f = func("layer", ctx="prelude", ws=True)
+            f = func(x.get("fn_spelling", {}).get("layer", "layer"), ctx="prelude", ws=True)
             inner = []
             parts = arg.split(".")
             for i, s in enumerate(parts):
@@ -156,7 +156,7 @@ def import_tokens(x):
                     inner.append(delim(".", ctx="prelude", wsmean="mustnot"))
                 inner.append(ident(s, ctx="prelude", wsmean="mustnot" if i else "free"))
         else:
-            f = func("supports", ctx="prelude", ws=True)
+            f = func(x.get("fn_spelling", {}).get("supports", "supports"), ctx="prelude", ws=True)
             inner = [ident("display", ctx="prelude"), simple(":", ctx="prelude"), ident("grid", ctx="prelude", ws=True)]
         close = simple(")", ctx="prelude")
         toks += [f] + inner + [close]
@@ -351,11 +351,11 @@ def expected(rules, opts):
                 out.append(E("{", src=f, synth=True))
                 closes += 1
                 continue
-            if f.v == "supports":
+            if f.v.lower() == "supports":
                 out.append(E("(", src=f, synth=True))
             for t in inner:
                 conv(t, out, False)
-            if f.v == "supports":
+            if f.v.lower() == "supports":
                 out.append(E(")", src=f, synth=True))
             out.append(E("{", src=f, synth=True))
             closes += 1
